@@ -1170,7 +1170,12 @@ case_b(uint64_t idx, void *arg) {
 static const int B3_LEN[] = {0, 1, 2, 11, 12, 13, 14, 15, 16, 100, 254, 255};
 #define B3_NLEN 12
 #define B3_NSEG (B3_NLEN * 3)
-#define B3_TOTAL ((uint64_t)B3_NSEG + 2ull * B3_NSEG * B3_NSEG)
+#define B3_PAIRS ((uint64_t)B3_NSEG + 2ull * B3_NSEG * B3_NSEG)
+/* third part: a long segment that stays, followed by segments that dot-segments remove again (the walk back over what was
+ * already written has to step over the long segment's two-byte option header) */
+static const char *const B3_TAILS[] = {"/x/..", "/x/../y", "/x/%2E%2E", "/x/%2e%2E/y", "/./y", "/x/../..", "/x/y/../../z", "/../y"};
+#define B3_NTAIL 8
+#define B3_TOTAL (B3_PAIRS + (uint64_t)B3_NSEG * B3_NTAIL * 2)
 static size_t
 b3_segment(uint8_t *o, unsigned code) {
   int L = B3_LEN[code % B3_NLEN], kind = (int)(code / B3_NLEN);
@@ -1189,7 +1194,20 @@ case_b3(uint64_t idx, void *arg) {
   (void)arg;
   static uint8_t s[700];
   size_t len;
-  if (idx < B3_NSEG)
+  if (idx >= B3_PAIRS) {
+    uint64_t x = idx - B3_PAIRS;
+    int lead = (int)(x % 2); /* 1: a short segment before the long one */
+    x /= 2;
+    len = 0;
+    if (lead) {
+      memcpy(s, "p/", 2);
+      len = 2;
+    }
+    len += b3_segment(s + len, (unsigned)(x % B3_NSEG));
+    const char *t = B3_TAILS[x / B3_NSEG];
+    memcpy(s + len, t, strlen(t));
+    len += strlen(t);
+  } else if (idx < B3_NSEG)
     len = b3_segment(s, (unsigned)idx);
   else {
     uint64_t x = idx - B3_NSEG;
@@ -1787,7 +1805,7 @@ main(int argc, char **argv) {
   vx_ev_assumption("too-small output buffer: a truncated result is not flagged (the statement does not ask for an error and the "
                    "repository's tests t_parse_uri15/16 require the 0 return); checked for every buffer size from needed+1 down to 0: "
                    "nothing is written outside the exact-size heap buffer, *buflen never exceeds it, the output is a well-formed option "
-                   "encoding; space b3 repeats this for 1-2 segments of 0,1,2,11..16,100,254,255 decoded bytes (option header size boundary, option length limit)");
+                   "encoding; space b3 repeats this for 1-2 segments of 0,1,2,11..16,100,254,255 decoded bytes (option header size boundary, option length limit), and for such a segment followed by 8 tails whose dot-segments remove later (or all) segments again");
   vx_ev_assumption("segment lists containing a '.' or '..' Uri-Path option (forbidden by RFC 7252 5.10.1) are exempt from the "
                    "path round trip, not from the injectivity check");
 #ifdef C16_BIG
